@@ -164,6 +164,13 @@ BLOCKS: list[tuple[str, str]] = [
     ("fence4-indented-inner-tilde", "qaa\n\n ~~~~~\n x\n    ~~~~~~\n y\n ~~~~~\n\nqab\n"),
     ("fence4-in-list-inner", "- qaa\n\n   ````\n   x\n      ````\n   y\n   ````\n- qab\n"),
     ("fence5-plain", "`````text\nx\n````\ny\n`````\n"),
+    ("footnote-first-list-then-para", "qaa[^1]\n\n[^1]: - qab\n    - qac\n\n    qad\n"),
+    ("empty-item", "- qaa\n-\n- qab\n"),
+    ("empty-item-ordered-quote", "> 1. qaa\n> 2.\n> 3. qab qac\n"),
+    ("empty-item-first-nested", "- qaa\n  -\n  - qab\n"),
+    ("empty-item-loose", "* qaa\n\n*\n\n* qab\n"),
+    ("tight-item-heading-then-list", "- ## qaa\n  - qab\n- qac\n"),
+    ("tight-item-heading-then-para", "1. # qaa\n   qab qac\n2. qad\n"),
     ("loose-list-in-quote-in-item", "- qaa\n\n  > - qab\n  >\n  > - qac\n"),
     ("loose-olist-in-quote-in-olist", "1. qaa\n\n   > 1. qab qad\n   >\n   > 2. qac\n"),
     ("loose-list-in-quote-in-quote-item", "> - qaa\n>\n>   > - qab\n>   >\n>   > - qac\n"),
@@ -295,6 +302,10 @@ def finding_class(case: dict[str, Any]) -> str:
       tag-newline       a newline next to a tag/comment is significant (also one that wrapping produced itself)
       marker-after-kept-newline  a list marker right after a kept newline (hard break / tag newline) starts a list
                         in the source already; only spacing around it is at stake
+      heading-then-block-in-tight-item  a heading always gets a blank line after it; directly inside an item of a
+                        tight list that blank line makes the list loose for the next run
+      footnote-first-line-list  a list that starts on the label line of a footnote definition: Marko reads the
+                        indentation of what follows differently from CommonMark (and from flowmark's renderer)
     """
     fam, sp = case.get("fam"), str(case.get("special"))
     sk = special_key(case)
@@ -308,6 +319,10 @@ def finding_class(case: dict[str, Any]) -> str:
         return "closing-tag"
     if sp in TAGLIKE or (fam == "para2" and any(x in TAGLIKE for x in sp.split("+"))):
         return "tag-newline"
+    if sp.startswith("tight-item-heading-then-"):
+        return "heading-then-block-in-tight-item"
+    if sp == "footnote-first-list-then-para":
+        return "footnote-first-line-list"
     return sk
 
 
